@@ -22,8 +22,25 @@ def py_merge(d, s):
         return r
     if isinstance(d, list) and isinstance(s, list):
         plain = [x for x in s if not (isinstance(x, dict) and any(k.startswith("$") for k in x))]
-        return [x for x in d if x != "$required"] + plain
+        cur = [x for x in d if x != "$required"]
+        for x in s:
+            # {$match: pat, ...patch}: steer later layers towards what the patch added (rough: subset match, no $invert/$value)
+            if isinstance(x, dict) and isinstance(x.get("$match"), dict) and "$value" not in x and "$invert" not in x["$match"]:
+                patch = {k: v for k, v in x.items() if k != "$match"}
+                try:
+                    cur = [py_merge(e, patch) if py_match(e, x["$match"]) else e for e in cur]
+                except Exception:
+                    pass
+        return cur + plain
     return s if s is not None else d
+
+
+def py_match(e, pat):
+    if isinstance(pat, dict):
+        return isinstance(e, dict) and all(k in e and py_match(e[k], v) for k, v in pat.items())
+    if isinstance(pat, list):
+        return isinstance(e, list) and all(any(py_match(x, p) for x in e) for p in pat)
+    return type(e) == type(pat) and e == pat
 
 
 def sub_pattern(rng, entry):
@@ -75,8 +92,23 @@ def list_patch(rng, cur):
             pat = {"nope": 1}
         if rng.chance(1, 4) and isinstance(pat, dict):
             pat = invert_somewhere(rng, pat)
-        ent = {"$match": pat}
         if rng.chance(1, 3):
+            # a pattern on a pair that SEVERAL entries share
+            shared = [(k, v) for k, v in sorted(e.items(), key=lambda kv: kv[0]) if not isinstance(v, (dict, list)) and sum(1 for o in maps if o.get(k) == v and type(o.get(k)) == type(v)) >= 2]
+            if shared:
+                k0, v0 = rng.pick(shared)
+                pat = {k0: v0}
+        ent = {"$match": pat}
+        r = rng.below(9)
+        if r < 3:
+            # the patch adds a NEW container (shared by every matched entry if the implementation does not copy it) or edits inside the entry
+            if rng.chance(1, 2):
+                ent[rng.pick(["labels", "n", "m"])] = gen.tree(rng, 2, PROF_NONULL, root_map=rng.chance(2, 3)) or {"tier": "web"}
+            else:
+                sub = derive(rng, e, 1)
+                if isinstance(sub, dict):
+                    ent.update({k: v for k, v in sub.items() if k not in ("$match",)})
+        elif r < 5:
             ent["$value"] = gen.tree(rng, 1, PROF)
             if rng.chance(1, 6):
                 ent["extra"] = 1
@@ -166,6 +198,9 @@ def base_tree(rng, depth=3):
     # make sure lists of maps exist often (for $match / $delete)
     if rng.chance(1, 2):
         items = [{"id": i, "v": rng.pick([1, "s", [1, 2], {"q": 1}])} for i in range(1 + rng.below(3))]
+        if rng.chance(1, 2):     # entries that share a pair, so that one pattern hits several
+            for it in items:
+                it["kind"] = rng.pick(["svc", "svc", "job"])
         if rng.chance(1, 3):     # mixed lists: maps next to scalars and lists
             items.insert(rng.below(len(items) + 1), rng.pick([1, "foo", [1], None]))
         t[rng.pick(["l", "items"])] = items
@@ -174,7 +209,41 @@ def base_tree(rng, depth=3):
     return t
 
 
+def multi_hit_chain(rng):
+    """a directed family: a list whose entries share a pair; a layer whose one $match entry hits SEVERAL of them and gives
+    each something new (a container, a nested edit, a scalar); then one or two layers that each address ONE of the patched
+    entries by its id and edit inside what the earlier layer added. Every patched entry must have received its own copy."""
+    n = 2 + rng.below(3)
+    kinds = ["svc", "svc", "job"]
+    items = [{"id": i, "kind": rng.pick(kinds), "v": rng.pick([1, "s", [1, 2], {"q": 1}])} for i in range(n)]
+    if rng.chance(1, 3):
+        items.insert(rng.below(len(items) + 1), rng.pick([7, "foo", [1]]))
+    where = rng.pick([("items",), ("a", "items"), ()])
+    def wrap(lst):
+        v = lst
+        for k in reversed(where):
+            v = {k: v}
+        return v if where else {"items": lst}
+    base = wrap(items)
+    if isinstance(base, dict) and rng.chance(1, 2):
+        base.setdefault("other", gen.tree(rng, 1, PROF_NONULL))
+    key = rng.pick(["labels", "n", "v"])
+    new = rng.pick([{"tier": "web"}, {"tier": "web", "deep": {"a": 1}}, [1], [{"p": 1}], {"l": [1, 2]}])
+    first = {"$match": {"kind": rng.pick(["svc", "job"])}, key: new}
+    layers = [base, wrap([first])]
+    for _ in range(1 + rng.below(2)):
+        target = rng.below(n)
+        if isinstance(new, dict):
+            edit = rng.pick([{"env": "prod"}, {"tier": "db"}, {"tier": "$delete"}, {"deep": {"b": 2}}, {"l": [3]}, {"tier": "web"}])
+        else:
+            edit = rng.pick([[9], [{"$match": {"p": 1}, "q": 2}], [{"$delete": 1}], []])
+        layers.append(wrap([{"$match": {"id": target}, key: edit}]))
+    return layers
+
+
 def chain(rng, n=None):
+    if n is None and rng.chance(1, 8):
+        return multi_hit_chain(rng)
     n = n or (2 + rng.below(3))
     layers = [base_tree(rng)]
     cur = layers[0]
